@@ -8,7 +8,7 @@ export BIN TMP
 one() {
   d=$1
   n=$(basename $(dirname $d))_$(basename $d)
-  NOSUITE=1 WIDTH=${WIDTH:-260} /verif/benigncheck.sh $d/patch.diff $BIN all 2>&1 | head -${LINES_MAX:-14} > $TMP/$n.txt
+  NOSUITE=1 WIDTH=${WIDTH:-260} /verif/benigncheck.sh $d/patch.diff $BIN "${PROPS:-all}" 2>&1 | head -${LINES_MAX:-14} > $TMP/$n.txt
 }
 export -f one
 for d in /verif/benign/*/*/; do
